@@ -1,0 +1,65 @@
+//! Verification facade: gives an external harness access to crate-private machinery
+//! without changing it. Everything here only *calls* the real code.
+use std::{future::Future, num::NonZeroU64, pin::Pin, sync::Arc};
+
+use netconf::transport::Transport;
+
+use crate::{
+    cli::{IrrdOpts, JunosOpts},
+    task::Updater,
+};
+
+pub use crate::netconf::verif::Connector;
+pub use crate::policies::verif::{
+    evaluate, plan, read_candidates, read_installed, EvalInput, EvalOutput, InstalledOutput,
+};
+
+pub type ConnectFuture<T> = Pin<Box<dyn Future<Output = anyhow::Result<T>> + Send>>;
+
+/// One agent run (`Updater::run`) against a caller-supplied transport factory.
+pub async fn run_once<T>(
+    connector: Connector<T>,
+    irrd_host: &str,
+    irrd_port: u16,
+    ephemeral_db: &str,
+) -> anyhow::Result<()>
+where
+    T: Transport + 'static,
+{
+    Updater::new(
+        connector,
+        IrrdOpts::verif_new(irrd_host, irrd_port),
+        JunosOpts::verif_new(ephemeral_db),
+    )
+    .run()
+    .await
+}
+
+/// The daemon loop (`Loop::start`) against a caller-supplied transport factory.
+pub async fn run_loop<T>(
+    connector: Connector<T>,
+    irrd_host: &str,
+    irrd_port: u16,
+    ephemeral_db: &str,
+    frequency: NonZeroU64,
+) -> anyhow::Result<()>
+where
+    T: Transport + 'static,
+{
+    Updater::new(
+        connector,
+        IrrdOpts::verif_new(irrd_host, irrd_port),
+        JunosOpts::verif_new(ephemeral_db),
+    )
+    .init_loop(frequency)
+    .start()
+    .await
+}
+
+pub fn connector<T, F>(f: F) -> Connector<T>
+where
+    T: Transport + 'static,
+    F: Fn() -> ConnectFuture<T> + Send + Sync + 'static,
+{
+    Connector::new(Arc::new(f))
+}
